@@ -118,6 +118,9 @@ RULES = {
     'L1': 'local variables renamed (same let-bindings in the same order, fresh names): the contract text of the function follows the rename',
     'F1': 'a private struct field was renamed (same field types in the same order): the contract text follows the rename',
     'R6': 'Vec::last().copied() -> same call on a shim helper vec_last(&v) (contract: last element or None)',
+    'M6': 'const NAME: f64|usize|.. = LITERAL; (module level or in an impl block) is folded into its uses NAME / Self::NAME and the item dropped',
+    'P1': 'function parameters renamed (same number of parameters, fresh names): the contract text of the function follows the rename',
+    'R14': 'PAT => return [e],  ->  PAT => { return [e]; },   (a return in match-arm position becomes a block)',
 }
 
 def rewrite_body(s, applied):
@@ -167,6 +170,9 @@ def rewrite_body(s, applied):
                 break
         if not found: break
     s = sub('R6', r'self\.(\w+)\.last\(\)\.copied\(\)', r'vec_last(&self.\1)', s)
+    # R14: a `return` in match-arm position becomes a block, so that it stands at statement level like every other `return`
+    s = sub('R14', r'=>\s*return\b[ \t]*([\w\.\*&:]*)[ \t]*,', r'=> { return \1; },', s)
+    s = sub('R14', r'=>\s*return\b[ \t]*([\w\.\*&:]*)\s*\}', r'=> { return \1; } }', s)
     return s
 
 UNSUPPORTED = [r'\.iter\(\)', r'\.iter_mut\(\)', r'\bunsafe\b', r'\bstatic\b', r'\bCell\b', r'\bRefCell\b', r'\bRc\b', r'\bArc\b',
@@ -397,10 +403,21 @@ def inject_fn(em, module, vc, header, body, is_trait_impl, struct_name):
         oldl = LOOP_HEADERS[lkey]
         lrename = {o: n for o, n in zip(oldl, cur_locals) if o != n and o not in cur_locals and n not in oldl}
         if lrename: em.extra_rules = getattr(em, 'extra_rules', set()) | set(['L1'])
+    # P1: parameters renamed since the contract was written (same number of parameters, a fresh name replacing a vanished one)
+    pm_all = re.search(r'\bfn\s+\w+\s*(?:<[^>]*>)?\s*\((.*?)\)\s*(?:->|$)', hdr, re.S)
+    cur_params = [re.match(r'(?:mut\s+)?(\w+)\s*:', x.strip()).group(1) for x in split_args(pm_all.group(1)) if re.match(r'(?:mut\s+)?(\w+)\s*:', x.strip())] if pm_all else []
+    pkey = '%s::%s/params' % (module, name)
+    if RECORD_LOOPS is not None:
+        RECORD_LOOPS[pkey] = cur_params
+    elif pkey in LOOP_HEADERS and LOOP_HEADERS[pkey] != cur_params and len(LOOP_HEADERS[pkey]) == len(cur_params):
+        oldp = LOOP_HEADERS[pkey]
+        prename = {o: n for o, n in zip(oldp, cur_params) if o != n and o not in cur_params and n not in oldp}
+        if prename:
+            lrename.update(prename); em.extra_rules = getattr(em, 'extra_rules', set()) | set(['P1'])
     def ren(t):
         if t is None or not lrename: return t
         for o, n in lrename.items():
-            t = re.sub(r'(?<![\.\w])%s\b(?!\s*\()' % re.escape(o), n, t)
+            t = re.sub(r'(?<![\.\w])%s\b(?!\s*\()(?!\s*:(?!:))' % re.escape(o), n, t)      # not a method name, not the key of a struct-literal field
         return t
     def vget(k):
         return ren(vc.get(k))
@@ -562,7 +579,7 @@ def unreturn(body):
             if j >= n: return None
             cl = match_close(body, j, '{', '}')
             blk = body[j + 1:cl].strip()
-            m = re.match(r'^return\s+([^;]*);$', blk, re.S)
+            m = re.match(r'^return\b\s*([^;]*);$', blk, re.S)          # `return E;` or the unit `return;`
             rest = body[cl + 1:]
             if m and not re.match(r'\s*else\b', rest):
                 r2 = unreturn(rest)
@@ -570,7 +587,7 @@ def unreturn(body):
                 return body[:i] + 'if' + body[i + 2:j] + '{ ' + m.group(1) + ' } else {' + r2 + '}'
             i = cl + 1; continue
         i += 1
-    m = re.search(r'(^|[;}])(\s*)return\s+([^;]*);\s*$', body, re.S)
+    m = re.search(r'(^|[;}])(\s*)return\b\s*([^;]*);\s*$', body, re.S)
     if m and not re.search(r'\breturn\b', body[:m.start(2)]): return body[:m.start(2)] + m.group(2) + m.group(3) + '\n'
     return None if re.search(r'\breturn\b', body) else body
 
@@ -668,6 +685,8 @@ def process_file(em, path, report):
     if i >= 0: src = src[:i]
     getters = re.findall(r'#\[getset\(get_copy = "pub"\)\]\s*\n\s*(\w+): ([^,\n]+),', src)
     s = strip_comments(src)
+    m6 = set()
+    s = inline_consts(s, m6)
     s = '\n'.join(ln for ln in s.split('\n') if not re.match(r'\s*(use |#\[derive|#\[inline|#\[getset)', ln))
     # multi-line `use std::{...};` never occurs except on one line; assert no stray `use`
     # M5: `impl Default for X<T, Echo<T>> { fn default() -> Self { BODY } }` is one more constructor: kept as an inherent `default()` with the
@@ -692,7 +711,7 @@ def process_file(em, path, report):
     manual_clone = bool(re.search(r'\bimpl\b[^{;]*\bClone\s+for\b', s))
     struct_fields = flds if sm else []
     vc = Contract(os.path.join(VF, 'contracts', stem + '.vc'), rename)
-    applied = set(['M1', 'M2'])
+    applied = set(['M1', 'M2']) | m6
     if rename: applied.add('F1')
     em.add('pub mod %s {' % stem)
     em.add('use vstd::prelude::*;\nuse vstd::view::View as SpecView;\nuse std::collections::VecDeque;\n'
@@ -798,6 +817,16 @@ def process_file(em, path, report):
     report['rules_applied'] |= applied
     return stem
 
+def inline_consts(s, applied=None):
+    """M6: `const NAME: f64|f32|usize|u32|i32|u64 = LITERAL;` (module level or inside an impl block) is folded into its uses
+    (`NAME`, `Self::NAME`) and the item is dropped - the extracted text then reads as if the literal had been written in place"""
+    consts = re.findall(r'^[ \t]*(?:pub(?:\([a-z]+\))?\s+)?const\s+([A-Z][A-Z0-9_]*)\s*:\s*(f64|f32|usize|u32|i32|u64)\s*=\s*(-?[0-9][0-9_]*(?:\.[0-9]+)?)(?:_?(?:f64|f32|usize|u32|i32|u64))?\s*;[ \t]*\n', s, re.M)
+    for name, ty, lit in consts:
+        s = re.sub(r'^[ \t]*(?:pub(?:\([a-z]+\))?\s+)?const\s+%s\s*:[^;]*;[ \t]*\n' % name, '', s, flags=re.M)
+        s = re.sub(r'\b(?:Self::)?%s\b' % name, lit, s)
+        if applied is not None: applied.add('M6')
+    return s
+
 def literal_axioms(text):
     lits = sorted(set(re.findall(r'T::from\((-?\d+\.\d+)\)', text)))
     out = []
@@ -838,8 +867,8 @@ def build(out_path, only=None, exclude=None):
     shim = open(os.path.join(VF, 'shim.rs')).read()
     head, tail = shim.split('//@@MODULES@@')
     # literal axioms need the extracted text: two passes (cheap)
-    alltext = ''.join(open(f).read() for f in source_files())
-    ax, lits = literal_axioms(strip_comments(alltext))
+    alltext = ''.join(inline_consts(strip_comments(open(f).read())) for f in source_files())
+    ax, lits = literal_axioms(alltext)
     head = head.replace('//@@LITERAL_AXIOMS@@', ax)
     em.add(head.rstrip('\n'))
     em.add('pub mod alg {')
